@@ -408,7 +408,7 @@ def run_history(sc, seq, R, idx, seen_states, debug=False):
                     break
             results.append(dec_obj)
             res_snaps.append(repr(abs_or_err(dec_obj, sc.T, spec)))
-        if call == 'mutate-last' and len(results) >= 2:
+        if call == 'mutate-last' and results:
             # mutating the last result must not change earlier results
             for k, prev in enumerate(results[:-1]):
                 now = repr(abs_or_err(prev, sc.T, spec))
